@@ -1126,3 +1126,19 @@ impl<'de> DeserializeSeed<'de> for DeserializeTextResource {
             .map_err(|e| -> D::Error { serde::de::Error::custom(e) })
     }
 }
+
+#[cfg(feature = "verif-hooks")]
+impl TextResource {
+    /// Verification hook: deterministic dump of the complete internal state of the resource
+    pub fn verif_dump(&self, prefix: &str, out: &mut String) {
+        use crate::verif::section;
+        section(out, &format!("{}.intid", prefix), &self.intid);
+        section(out, &format!("{}.id", prefix), &self.id);
+        section(out, &format!("{}.filename", prefix), &self.filename);
+        section(out, &format!("{}.text", prefix), &self.text);
+        section(out, &format!("{}.textlen", prefix), &self.textlen);
+        section(out, &format!("{}.textselections", prefix), &self.textselections);
+        section(out, &format!("{}.positionindex", prefix), &self.positionindex);
+        section(out, &format!("{}.byte2charmap", prefix), &self.byte2charmap);
+    }
+}
